@@ -334,7 +334,10 @@ def run(repo: Repo, rep: Report, tier: str) -> None:
         muts = [s for s in walk_no_nested(fn) if isinstance(s, ast.Assign) and norm(s.targets[0]) == dsv and s is not unpack[0] and not (isinstance(s.value, ast.Constant) and s.value.value is None) and norm(strip_cast(s.value)) != dsv]
         rep.check(not muts, "data-flow", fq, muts[0] if muts else f"{dsv} only bound from the handler result", "the handler's data set is replaced before it is encoded", mod=sc, node=muts[0] if muts else fn)
     check_handler_dataset_replacement(repo, rep)
+    check_handler_block_minimal(repo, rep, dimse_events)
     from ..delegate import delegate
+    rep.rule("reply-delivered", "the response (status and data set) is cut into fragments the requestor can reassemble for every length (C15's fragmentation rules)")
+    delegate(repo, rep, tier, "C15", ("overhead", "overhead-count", "order-flags", "one-pdv"), "reply-delivered", "for some reply sizes the response carrying the handler's status and data set is never completed on the wire: the requestor gets neither")
     rep.rule("reply-syntax", "every encode / decode of a data set takes all three flags (implicit VR, byte order, deflated) from one transfer-syntax object (C25's codec-flags rule)")
     delegate(repo, rep, tier, "C25", ("codec-flags",), "reply-syntax", "the data set the handler supplied reaches the peer in a different encoding than the context's transfer syntax (e.g. not deflated on a Deflated context): the peer cannot read the reply's data set although the status says Success")
 
@@ -399,3 +402,52 @@ def check_handler_dataset_replacement(repo: Repo, rep: Report) -> None:
                 ok = all(any(isinstance(nm, ast.Name) and nm.id == dsv for nm in ast.walk(d)) for d in disj)
             rep.check(ok, "data-flow", fq, s, f"the handler's data set `{dsv}` is replaced under `{norm(g.test) if g is not None else 'no condition'}`: a condition that does not depend on what the handler supplied discards a valid Identifier (e.g. its own Failed SOP Instance UID List) - the requestor receives a different data set than the handler returned", mod=sc, node=s)
     rep.floor("handler data-set replacement sites (C-GET / C-MOVE)", n, 2)
+
+
+PURE_IN_HANDLER_BLOCK = {"evt.trigger", "isinstance", "hasattr", "setattr", "getattr", "cast", "next", "int", "len", "str", "bool", "iter", "AttributeError", "TypeError", "ValueError", "RuntimeError", "Dataset"}
+
+
+def check_handler_block_minimal(repo: Repo, rep: Report, dimse_events: set[str]) -> None:
+    """The try / `with attempt(..)` block around an intervention trigger turns whatever it catches into the
+    documented 'handler raised' failure status. It must therefore contain nothing else that can raise: a
+    clean-up call (close, unlink, a send) placed inside it without its own try has its exception reported as
+    the handler's, and the status - and status data set - the handler actually returned are replaced."""
+    rep.rule("status-preserved", "inside the block that maps handler exceptions to a failure status nothing but the trigger can raise (other calls carry their own try)")
+    n = 0
+    for mname in ("service_class", "association"):
+        m = repo.mod(mname)
+        for fn in [f for f in ast.walk(m.tree) if isinstance(f, ast.FunctionDef)]:
+            blocks = []
+            for t in walk_no_nested(fn):
+                trig_in = lambda body: any(isinstance(c, ast.Call) and dotted(c.func) == "evt.trigger" and len(c.args) > 1 and (dotted(c.args[1]) or "").split(".")[-1] in dimse_events for s_ in body for c in ast.walk(s_))  # noqa: E731
+                if isinstance(t, ast.Try) and trig_in(t.body) and any(h.type is not None and norm(h.type) == "Exception" for h in t.handlers):
+                    blocks.append((t, t.body))
+                if isinstance(t, ast.With) and any(suppressing(i) for i in t.items) and trig_in(t.body):
+                    blocks.append((t, t.body))
+            for owner, body in blocks:
+                n += 1
+                fq = f"{mname}.{qualname(fn)}"
+                bad = []
+                for s_ in body:
+                    for c in ast.walk(s_):
+                        if not isinstance(c, ast.Call):
+                            continue
+                        name = norm(c.func)
+                        if name in PURE_IN_HANDLER_BLOCK or name.startswith("LOGGER."):
+                            continue
+                        if isinstance(c.func, ast.Attribute) and c.func.attr == "close" and not c.args:
+                            continue  # closing a file object does not depend on what the handler did with the path
+                        inner = enclosing(c, (ast.Try,))
+                        guarded = False
+                        while inner is not None and inner is not owner and any(y is inner for s2 in body for y in ast.walk(s2)):
+                            if any(c in list(ast.walk(s3)) for s3 in inner.body) and inner.handlers:
+                                guarded = True
+                                break
+                            inner = enclosing(inner, (ast.Try,))
+                        if not guarded:
+                            bad.append(c)
+                for c in bad:
+                    rep.fail("status-preserved", fq, enclosing(c, (ast.stmt,)) or c, f"`{norm(c)[:50]}` runs inside the block whose exceptions are reported as the handler's: if it raises (a file the handler moved, a closed socket) the response carries the 'handler raised' failure code instead of the status - and status data set - the handler returned", mod=m, node=c)
+                if not bad:
+                    rep.ok("status-preserved", f"{fq} :: handler block at line {owner.lineno}", "only the trigger can raise")
+    rep.floor("handler blocks inspected", n, 8)
